@@ -11,6 +11,8 @@ pub enum Sel {
     LetIfCond(String, usize),
     /// scrut~<ident>#k: the scrutinee of the k-th `match` whose scrutinee mentions the identifier
     Scrut(String, usize),
+    /// ifguard:<ident>#k: the condition of the k-th `if` whose then-branch mentions the identifier (e.g. a callee)
+    IfGuard(String, usize),
     Arg { recv: Option<String>, method: String, k: usize, i: usize },
 }
 
@@ -32,6 +34,10 @@ pub fn parse_sel(s: &str) -> Result<Sel, String> {
     if let Some(r) = s.strip_prefix("letifcond:") {
         let (n, k) = split_k(r);
         return Ok(Sel::LetIfCond(n, k));
+    }
+    if let Some(r) = s.strip_prefix("ifguard:") {
+        let (n, k) = split_k(r);
+        return Ok(Sel::IfGuard(n, k));
     }
     if let Some(r) = s.strip_prefix("scrut~") {
         let (n, k) = split_k(r);
@@ -138,6 +144,12 @@ impl<'a, 'ast> Visit<'ast> for Finder<'a> {
                 self.hits.push(((*i.cond).clone(), i.span().start().line));
             }
         }
+        if let Sel::IfGuard(id, _) = self.sel {
+            use quote::ToTokens;
+            if mentions_ident(i.then_branch.to_token_stream(), id) {
+                self.hits.push(((*i.cond).clone(), i.span().start().line));
+            }
+        }
         syn::visit::visit_expr_if(self, i);
     }
     fn visit_expr_match(&mut self, m: &'ast syn::ExprMatch) {
@@ -183,7 +195,7 @@ pub fn select(f: &FnInfo, sel: &Sel) -> Result<(syn::Expr, usize), String> {
     let mut fd = Finder { sel, hits: vec![] };
     fd.visit_block(&f.block);
     let k = match sel {
-        Sel::Let(_, k) | Sel::Assign(_, k) | Sel::IfCond(_, k) | Sel::LetIfCond(_, k) | Sel::Scrut(_, k) => *k,
+        Sel::Let(_, k) | Sel::Assign(_, k) | Sel::IfCond(_, k) | Sel::LetIfCond(_, k) | Sel::Scrut(_, k) | Sel::IfGuard(_, k) => *k,
         Sel::Arg { k, .. } => *k,
     };
     fd.hits
